@@ -300,14 +300,17 @@ def refused_stub(patched: bool, reopened: bool) -> bool:
         return ok
 
 
-def refused(uncommitted: bool, writable_base: bool) -> bool:
+def refused(uncommitted: bool, writable_base: bool, reopened_ro: bool) -> bool:
     """
     post: _
     """
-    # merging is refused while there are uncommitted changes, and leaves nothing behind that opens
+    # merging is refused while there are uncommitted changes, and leaves nothing behind that opens;
+    # reopened_ro: the uncommitted container is left on disk (close without commit) and the record is
+    # opened again read-only -- the changes are still uncommitted
     C = CLS[SEL.get("cls", "ih5")]
     uncommitted = True if uncommitted else False
     writable_base = True if writable_base else False
+    reopened_ro = True if reopened_ro else False
     reach()
     with untraced():
         INST.reset()
@@ -318,6 +321,9 @@ def refused(uncommitted: bool, writable_base: bool) -> bool:
             if uncommitted:
                 r.create_patch()
                 r["b"] = 2
+        if reopened_ro:
+            r.close(commit=False)
+            r = C(REC_PATH, "r")
         expect_refusal = writable_base or uncommitted
         before = sorted(fakeh5.FS)
         try:
